@@ -144,6 +144,10 @@ func runAllegationTransaction(ctx *action.Context, tx action.RawTx) (bool, actio
 		return helpers.LogAndReturnFalse(ctx.Logger, evidence.ErrFrozenValidator, al.Tags(), err)
 	}
 
+	if ctx.EvidenceStore.IsFrozenValidator(al.ValidatorAddress) {
+		return helpers.LogAndReturnFalse(ctx.Logger, evidence.ErrFrozenValidator, al.Tags(), err)
+	}
+
 	if !ctx.EvidenceStore.IsActiveValidator(al.ValidatorAddress) {
 		return helpers.LogAndReturnFalse(ctx.Logger, evidence.ErrNonActiveValidator, al.Tags(), err)
 	}
